@@ -133,6 +133,12 @@ Holds(e, name) ==
     [] name = "C03_SolveRowsSatisfied" ->
          C03_RowsSatisfied(g, bc, MatOf(o.Mbc), FieldOf(g, o.Rbc), FieldOf(g, o.f_solve))
     [] name = "C03_PlotProfile"   -> C03_PlotProfile(g, FieldOf(g, o.f_solve), FieldOf(g, o.profile))
+    [] name = "C01_OpenDiffusion" ->
+         C01_OpenMatrix(g, V, MatOf(o.Mdiff), FieldOf(g, cf.phi), FMul(FaceFieldOf(g, cf.D), FaceFieldOf(g, o.grad)))
+    [] name = "C01_OpenCentral" ->
+         C01_OpenMatrix(g, V, MatOf(o.Mconv), FieldOf(g, cf.phi), FMul(FaceFieldOf(g, cf.u), FaceFieldOf(g, o.linmean)))
+    [] name = "C01_OpenUpwind" ->
+         C01_OpenMatrix(g, V, MatOf(o.Mup), FieldOf(g, cf.phi), FMul(FaceFieldOf(g, cf.u), FaceFieldOf(g, o.upmean)))
     [] name = "C01_ClosedDiffusionMid" -> C01_ClosedMatrix(g, MidVolume(g), MatOf(o.Mdiff))
     [] name = "C01_ClosedCentralMid"   -> C01_ClosedMatrix(g, MidVolume(g), MatOf(o.Mconv))
     [] name = "C01_ClosedUpwindMid"    -> C01_ClosedMatrix(g, MidVolume(g), MatOf(o.Mup))
